@@ -11,12 +11,14 @@ import (
 	"fmt"
 	"os"
 	"path/filepath"
+	"runtime"
 	"sort"
 	"strings"
 	"sync"
 	"sync/atomic"
 	"testing"
 	"testing/synctest"
+	"time"
 
 	"pgregory.net/rapid"
 	"storj.io/drpc"
@@ -346,6 +348,7 @@ type harness struct {
 	tagSl    map[string][]string
 	tagMu    sync.Mutex
 	draining bool
+	stressFree bool
 
 	streams  []*mStream          // explicit streams by spec index, then dialled ones in integration order
 	byKey    map[string]*mStream //
@@ -1362,76 +1365,76 @@ func clearCurrent() {
 	}
 }
 
-func run(c Case) (out vstat.Outcome, err error) {
+// hangTimeout is real time. A case normally takes well under a millisecond; the bubble not
+// finishing means synctest.Wait never saw the pool quiesce: some goroutine is blocked for
+// good on something that is not a channel/timer (a mutex held by a call that is itself
+// parked on a stuck stream), or spins.
+const hangTimeout = 10 * time.Second
+
+type runResult struct {
+	out vstat.Outcome
+	err error
+}
+
+func run(c Case) (vstat.Outcome, error) {
 	c = norm(c)
-	c, excluded := excludeKnown(c)
 	writeCurrent(c)
-	defer func() {
-		if r := recover(); r != nil {
-			// synctest reports goroutines left blocked in the bubble this way
-			err = fmt.Errorf("bubble did not wind down: %v", r)
-		}
-		clearCurrent()
-		out.Excluded = excluded
-	}()
-	synctest.Test(outerT, func(*testing.T) {
-		out, err = runInBubble(c)
-	})
-	return
-}
-
-// Known findings (see known_findings.json): the generated search excludes exactly the input
-// feature that triggers each of them, and only while the finding is listed as "known"
-// (VERIF_C19_ASSUME_KNOWN=sig1,sig2 switches an exclusion on for harness development).
-const (
-	// SendById(msg, p1, p2, ...) returns after the first successful write, so only the first
-	// reachable peer gets the message.
-	sigSendByIdMulti = "sendbyid-multi-peer-stops-after-first-success"
-	// The pool keeps the caller's tags slice and filters it in place on RemoveTags*: two streams
-	// registered with the same slice corrupt each other's tag list, the index goes stale and
-	// the next removeStream hits log.Fatal.
-	sigSharedTags = "shared-tags-slice-aliasing"
-)
-
-func knownActive(sig string) bool {
-	if vstat.KnownSignature(prop, sig) {
-		return true
-	}
-	for _, s := range strings.Split(os.Getenv("VERIF_C19_ASSUME_KNOWN"), ",") {
-		if s == sig || s == "all" {
-			return true
-		}
-	}
-	return false
-}
-
-// excludeKnown removes exactly the input feature of a recorded known finding (and says so).
-func excludeKnown(c Case) (Case, string) {
-	excluded := ""
-	if knownActive(sigSendByIdMulti) {
-		ops := append([]Op(nil), c.Ops...)
-		for i := range ops {
-			if ops[i].Kind == opSendById && len(ops[i].Peers) > 1 {
-				ops[i].Peers = ops[i].Peers[:1]
-				excluded = sigSendByIdMulti
+	defer clearCurrent()
+	res := make(chan runResult, 1)
+	go func() {
+		var r runResult
+		defer func() {
+			if p := recover(); p != nil {
+				// synctest reports goroutines left blocked in the bubble this way
+				r.err = fmt.Errorf("bubble did not wind down: %v", p)
 			}
+			res <- r
+		}()
+		synctest.Test(outerT, func(*testing.T) {
+			r.out, r.err = runInBubble(c)
+		})
+	}()
+	tm := time.NewTimer(hangTimeout)
+	defer tm.Stop()
+	select {
+	case r := <-res:
+		return r.out, r.err
+	case <-tm.C:
+		return vstat.Outcome{}, fmt.Errorf("pool wedged: the case did not quiesce within %v of real time (a goroutine is blocked on a lock held by a call that waits for a stuck stream, or spins)\n%s",
+			hangTimeout, poolStacks())
+	}
+}
+
+// poolStacks returns the stacks of the goroutines that are inside the stream pool.
+func poolStacks() string {
+	buf := make([]byte, 1<<20)
+	buf = buf[:runtime.Stack(buf, true)]
+	var keep []string
+	for _, g := range strings.Split(string(buf), "\n\n") {
+		if strings.Contains(g, "net/streampool.") {
+			lines := strings.Split(g, "\n")
+			if len(lines) > 9 {
+				lines = lines[:9]
+			}
+			keep = append(keep, strings.Join(lines, "\n"))
 		}
-		c.Ops = ops
+		if len(keep) >= 6 {
+			break
+		}
 	}
-	if c.SharedTags && knownActive(sigSharedTags) {
-		c.SharedTags = false
-		excluded = sigSharedTags
-	}
-	return c, excluded
+	return strings.Join(keep, "\n\n")
 }
 
 // ---- generator ----------------------------------------------------------------------------------
+
+// tags are skewed so that broadcasts usually hit several streams
+var genTag = rapid.SampledFrom([]int{0, 0, 0, 1, 1, 2, 3})
 
 func genSpec(rt *rapid.T, nPeers int, label string) StreamSpec {
 	s := StreamSpec{
 		Gate:  rapid.SampledFrom([]int{0, 0, 0, 1, 2, 2}).Draw(rt, label+"gate"),
 		Peer:  rapid.IntRange(0, nPeers-1).Draw(rt, label+"peer"),
-		Tags:  normTags(rapid.SliceOfN(rapid.IntRange(0, nTags-1), 0, 3).Draw(rt, label+"tags")),
+		Tags:  normTags(rapid.SliceOfN(genTag, 0, 3).Draw(rt, label+"tags")),
 		Queue: rapid.SampledFrom([]int{1, 1, 2, 2, 3, 4, 5}).Draw(rt, label+"queue"),
 	}
 	switch rapid.IntRange(0, 9).Draw(rt, label+"fail") {
@@ -1473,8 +1476,25 @@ func genCase(rt *rapid.T) Case {
 			Pace: rapid.IntRange(0, 2).Draw(rt, "pace") > 0,
 		}
 		o.Peers = rapid.SliceOfN(rapid.IntRange(0, nPeers-1), 1, 3).Draw(rt, "peers")
-		o.Tags = rapid.SliceOfN(rapid.IntRange(0, nTags-1), 1, 3).Draw(rt, "tags")
-		c.Ops = append(c.Ops, o)
+		o.Tags = rapid.SliceOfN(genTag, 1, 3).Draw(rt, "tags")
+		switch rapid.IntRange(0, 11).Draw(rt, "shape") {
+		case 0:
+			// a stream ends while its tags are being changed and a broadcast is on its way
+			end := Op{Kind: rapid.SampledFrom([]int{opClose, opClose, opRecvErr, opHandlerErr}).Draw(rt, "endKind"), A: o.A, Via: o.Via}
+			tag := Op{Kind: rapid.SampledFrom([]int{opAddTags, opRemoveTags, opRemoveTagsById}).Draw(rt, "tagKind"), A: o.A, Tags: o.Tags}
+			bc := Op{Kind: opBroadcast, Tags: o.Tags, N: o.N, Pace: true}
+			if rapid.Bool().Draw(rt, "tagFirst") {
+				c.Ops = append(c.Ops, tag, end, bc)
+			} else {
+				c.Ops = append(c.Ops, end, tag, bc)
+			}
+		case 1:
+			// more back-to-back messages than any queue holds
+			c.Ops = append(c.Ops, Op{Kind: rapid.SampledFrom([]int{opBroadcast, opSendById}).Draw(rt, "floodKind"),
+				Peers: o.Peers[:1], Tags: o.Tags, N: 6, Pace: o.Pace})
+		default:
+			c.Ops = append(c.Ops, o)
+		}
 	}
 	c.Sched = rapid.SliceOfN(rapid.IntRange(0, 3), 1, 8).Draw(rt, "sched")
 	return norm(c)
